@@ -2,6 +2,7 @@
 failing cases through run.classify(key, payload) and returns a dict describing what it enumerated.
 Nothing here is counted as proved; evidence lists it under coverage.bounded."""
 import copy
+import os
 import json
 import time
 import warnings
@@ -87,8 +88,9 @@ def registered_formats():
     return dict(format_checker._callable_register)
 
 
+_VERIF_ROOT = os.path.dirname(os.path.dirname(os.path.abspath(__file__)))
 REPRO_PIPE = """import os, sys, json, warnings
-sys.path.insert(0, os.environ.get('STATHAM_REPO', '/repo')); sys.path.insert(0, '/verif')
+sys.path.insert(0, os.environ.get('STATHAM_REPO', '/repo')); sys.path.insert(0, os.environ.get('VERIF_ROOT', %r))""" % _VERIF_ROOT + """
 warnings.simplefilter('ignore')
 from statham.schema.parser import parse_element
 from statham.schema.exceptions import ValidationError
